@@ -39,6 +39,9 @@ pub enum Step<S> {
     Next(S),
     /// The transition was executed and the oracle failed on it. The successor is not expanded.
     Violated(Violation),
+    /// The transition was executed, the oracle failed on it, but the successor is still expanded
+    /// (used for clauses with a listed known finding, so states behind it stay covered).
+    Flagged(S, Violation),
     /// The event turned out not to be applicable here (counted, not expanded).
     Skip,
 }
@@ -115,6 +118,7 @@ struct Node<M: Model> {
 enum Succ<M: Model> {
     Next(M::St),
     Violated(Violation),
+    Flagged(M::St, Violation),
     Skip,
 }
 
@@ -179,6 +183,7 @@ pub fn explore<M: Model>(model: &M, cfg: &Config) -> Outcome<M::Ev> {
                         let r = match model.step(&parent.st, &parent.hist, ev) {
                             Step::Next(s) => Succ::Next(s),
                             Step::Violated(v) => Succ::Violated(v),
+                            Step::Flagged(s, v) => Succ::Flagged(s, v),
                             Step::Skip => Succ::Skip,
                         };
                         local.push((i, r));
@@ -208,7 +213,20 @@ pub fn explore<M: Model>(model: &M, cfg: &Config) -> Outcome<M::Ev> {
                         violation: v,
                     });
                 }
-                Succ::Next(st) => {
+                Succ::Flagged(..) | Succ::Next(_) => {
+                    let st = match succ {
+                        Succ::Next(st) => st,
+                        Succ::Flagged(st, v) => {
+                            let mut history = frontier[*pi].hist.clone();
+                            history.push(ev.clone());
+                            out.violations.push(FoundViolation {
+                                history,
+                                violation: v,
+                            });
+                            st
+                        }
+                        _ => unreachable!(),
+                    };
                     out.transitions += 1;
                     let key = (
                         model.canon(&st),
@@ -260,6 +278,13 @@ pub fn replay<M: Model>(model: &M, history: &[M::Ev]) -> Result<Option<Violation
     for (n, ev) in history.iter().enumerate() {
         match model.step(&st, &hist, ev) {
             Step::Next(s) => {
+                st = s;
+                hist.push(ev.clone());
+            }
+            Step::Flagged(s, v) => {
+                if n + 1 == history.len() {
+                    return Ok(Some(v));
+                }
                 st = s;
                 hist.push(ev.clone());
             }
